@@ -31,7 +31,7 @@ static const double AX[16][3] = {{1, 0, 0}, {-1, 0, 0}, {0, 1, 0}, {0, -1, 0}, {
 static const char* AXN[16] = {"+x", "-x", "+y", "-y", "+z", "-z", "(1,1,0)", "(1,1,1)", "generic", "longest_axis", "+z tilted by 0.001 rad", "-z tilted by 0.001 rad", "+z tilted by 1e-06 rad", "-z tilted by 1e-06 rad", "+x tilted by 0.001 rad", "-y tilted by 1e-06 rad"};   // index 9 = the real longest axis; 10..15 = almost axis-aligned
 static const char* LMN[4] = {"band_low", "band_middle", "band_high", "too_large"};
 
-struct Case { int shape, axis, lmin, seed; int hist = 0; /* 1: the mother went through a real edge collapse (free slots); 2: her nodes have moved since her caches were last refreshed, as in a running simulation */ };
+struct Case { int shape, axis, lmin, seed; int hist = 0; /* 1: the mother went through a real edge collapse (free slots); 2: her nodes have moved since her caches were last refreshed, as in a running simulation; 3: wide-band refiner */ };
 static std::string case_text(const Case& c) { return std::to_string(c.shape) + " " + std::to_string(c.axis) + " " + std::to_string(c.lmin) + " " + std::to_string(c.seed) + " " + std::to_string(c.hist); }
 static std::string case_json(const Case& c) { return "{\"shape\":\"" + g_shapes[c.shape].name + "\",\"axis\":\"" + AXN[c.axis] + "\",\"l_min\":\"" + LMN[c.lmin] + "\",\"seed\":" + std::to_string(c.seed) + ",\"mother_history\":" + std::to_string(c.hist) + "}"; }
 
@@ -59,7 +59,7 @@ static std::string divide_once(const Case& cs) {
     setup(); simucell3d_verif::g_base_seed = 1000 + cs.seed; simucell3d_verif::reset_rng_counters(); srand(1);
     const sc::Mesh& m = g_shapes[cs.shape]; auto ty = sc::make_cell_type(0, 3); auto c = std::make_shared<forced_axis_cell>(m.pos, m.tri, 7u, ty); c->set_local_id(0); c->initialize_cell_properties();
     if (cs.axis != 9) { c->forced_ = true; c->axis_ = vec3(AX[cs.axis][0], AX[cs.axis][1], AX[cs.axis][2]); }
-    bool in_band = false; const double l_min = lmin_for(m, cs.lmin, in_band); local_mesh_refiner lmr(l_min, 3 * l_min, true);
+    bool in_band = false; const double l_min = lmin_for(m, cs.lmin, in_band); local_mesh_refiner lmr(cs.hist == 3 ? 1e-3 * l_min : l_min, cs.hist == 3 ? 50 * l_min : 3 * l_min, true);   /* history 3: a refiner whose band already contains every daughter edge (the daughters leave the division without a single split or collapse: free node slots of the mother's list, no free face slot) */
     if (cs.hist == 1) { local_mesh_refiner wide(1e-9, 1e9, true); for (const edge& e0 : c->get_edge_set()) { edge e = e0; bool can = false; try { can = wide.can_be_merged(e, c); } catch (...) {} if (!can) continue; edge_set es = c->get_edge_set(); try { wide.merge_edge(e, c, es); } catch (...) {} break; } c->update_all_face_normals_and_areas(); c->area_ = c->compute_area(); c->volume_ = c->compute_volume(); in_band = false; }
     if (cs.hist == 2) { vec3 o = c->compute_centroid(); for (node& nd : c->node_lst_) if (nd.is_used_) nd.pos_ = o + (nd.pos_ - o) * 1.04 + vec3(0.01, -0.02, 0.015) * (nd.pos_ - o).dx(); }   // grown and sheared a little since the last forces phase: face areas, normals and the cached total area are one step old
     c->target_volume_ = 1.25 * c->get_volume();
@@ -115,7 +115,7 @@ static void explore(Result& R) {
     for (int s = 0; s < (int)g_shapes.size(); s++) for (int a = 0; a < 16; a++) for (int l = 0; l < 4; l++) for (int k = 0; k < K; k++) {
         if (a >= 10 && !th && (l != 1 || k > 1)) continue;   /* quick: the almost axis-aligned axes with the mid-band edge length, two seeds */
         if (R.out_of_time(0.9)) { R.cap("deadline"); goto pop; }
-        for (int hi = 0; hi < 3; hi++) { if (hi && !((a == 9 || a == 8 || a == 4) && l == 1 && k < 2)) continue;   /* mothers with a history: three axes, mid-band edge length, two seeds */
+        for (int hi = 0; hi < 4; hi++) { if (hi && !((a == 9 || a == 8 || a == 4) && l == 1 && k < 2)) continue;   /* mothers with a history: three axes, mid-band edge length, two seeds */
         if (!R.args.mine(unit++)) continue;
         Case c{s, a, l, k, hi}; cases++; progress("mode=single\ncase=" + case_text(c) + "\n");
         ForkOut fo = run_forked([&](char* buf, size_t cap) { std::string r = divide_once(c); snprintf(buf, cap, "%s", r.c_str()); }, 60);
